@@ -138,7 +138,7 @@ package hcl
 // verif:func (Expression).Value
 //@ trusted
 //@ assigns allof(hclsyntax.AnonSymbolExpr.values), allmaps(hclsyntax.AnonSymbolExpr.values)
-//@ ensures ret0 == exprVal(self, ctx)
+//@ ensures ret0 == exprVal(self, ctx) && !laundered(ret0)
 // Range, StartRange and Variables only read the expression.
 // verif:func (Expression).Range
 //@ trusted
